@@ -18,6 +18,14 @@
   `Circuit.fuse` and `Circuit.repeated_execution` on the level of the attributes that
   execution consults.
 
+  NOT modelled: noise channels.  The unchanged code lets a `Channel` take part in fusion like an
+  ordinary gate and refuses at execution (`matrix` is not defined for channels); the check
+  accepts a refusal and otherwise demands that no entry is lost, that the real fused queue is
+  `~ₜ` the input with the channel as an opaque entry on its qubits (the proved decision
+  procedure `traceEqB`) and that the final density matrix is unchanged (search).  A gate whose
+  parameters are substituted from measurement outcomes at every shot is, once kept out of
+  fusion, an entry of kind 1 of `FIn` (marked, barrier on its own qubits).
+
   Transliterated from
     * `gates/measurements.py`  `M.apply` / `M.apply_density_matrix` (collapse branch)
     * `gates/special.py`       `CallbackGate.apply`
